@@ -853,21 +853,23 @@ class Flow:
 
 def phi_of_paths(rs):
     """[(value, [atomic guards])] of the mutually exclusive paths of a decision tree -> the value as nested phi, or None when the
-    guards do not form a complete binary tree (a path missing, two values on one path)."""
+    guards do not form a complete binary tree (a path missing, two values on one path).  Guards are the atomic guards Flow records
+    (split_guard): the complement of `(a or b, True)` is the run `(a, False), (b, False)`."""
     if len(rs) == 1 and not rs[0][1]:
         return rs[0][0]
-    conds = [g[0] for v, gs in rs for g in gs[:1]]
-    if not conds or any(not gs for v, gs in rs):
+    if any(not gs for v, gs in rs):
         return None
-    c = conds[0]
-    t = [(v, gs[1:]) for v, gs in rs if gs[0] == (c, True)]
-    e = [(v, gs[1:]) for v, gs in rs if gs[0] == (c, False)]
-    if len(t) + len(e) != len(rs) or not t or not e:
-        return None
-    a, b = phi_of_paths(t), phi_of_paths(e)
-    if a is None or b is None:
-        return None
-    return ("phi", c, a, b)
+    for c, pol in dict.fromkeys(gs[0] for v, gs in rs):
+        neg = split_guard((c, not pol))
+        t = [(v, gs[1:]) for v, gs in rs if gs[0] == (c, pol)]
+        e = [(v, gs[len(neg):]) for v, gs in rs if gs[0] != (c, pol) and list(gs[:len(neg)]) == neg]
+        if len(t) + len(e) != len(rs) or not t or not e:
+            continue
+        a, b = phi_of_paths(t), phi_of_paths(e)
+        if a is None or b is None:
+            continue
+        return ("phi", c, a, b) if pol else ("phi", c, b, a)
+    return None
 
 
 def loop_built_seq(fl, name):
